@@ -117,6 +117,17 @@ class P(Prop):
             elif fam == "no_breakers":
                 plant["breakers"] = []
                 inp["sts"] = None
+                # every switchboard but one fed by storage units only (no genset there): still two unconnected switchboards
+                if len(swbs) >= 2 and rng.random() < 0.5:
+                    keep = rng.choice(swbs)
+                    for d, ci in zip(comps, inp["comps"]):
+                        if d["swb"] != keep and pg.kind_of(d["cls"]) == "Source":
+                            for k_ in [k_ for k_ in d if k_ not in ("name", "swb", "rated")]:
+                                del d[k_]
+                            d["cls"] = "battery"
+                            ci.clear()
+                            ci.update({"status": [True] * n, "lsm": [Fraction(1)] * n, "pin": [Fraction(0)] * n})
+                    case["what"] = "gensets-on-one-switchboard-only"
             elif fam == "unknown_breaker":
                 ghost = max(swbs) + 5
                 plant["breakers"].append([swbs[0], ghost])
